@@ -256,6 +256,9 @@ func init() {
 		"net.JoinHostPort": func(fr *Frame, ins ssa.Instruction, a []*Val, rs *Sort) *Val {
 			return &Val{T: "(joinHostPort " + a[0].T + " " + a[1].T + ")", S: SString}
 		},
+		"(*net.UDPAddr).String": func(fr *Frame, ins ssa.Instruction, a []*Val, rs *Sort) *Val {
+			return &Val{T: "(udpAddrString " + a[0].T + ")", S: SString}
+		},
 		"net.ParseIP": func(fr *Frame, ins ssa.Instruction, a []*Val, rs *Sort) *Val {
 			// result modelled by length: 0 (nil) or 16
 			return &Val{T: "(parseIP " + a[0].T + ")", S: SString}
